@@ -163,6 +163,12 @@ func (a *remoteAuthorizer) Execute(ctx heimdall.Context, sub *subject.Subject) e
 			if err = json.Unmarshal(entry, &ai); err == nil {
 				logger.Debug().Msg("Reusing authorization information from cache")
 
+				// the expressions can be overridden on the rule level and are not part of the cache key.
+				// So, the cached response must be verified using the expressions of this instance
+				if err = a.verify(ctx, ai.Payload); err != nil {
+					return err
+				}
+
 				authInfo = &ai
 			}
 		}
